@@ -45,6 +45,8 @@ pub fn corruptions(e: &Entry, enc: &Encoded, done: &mut BTreeSet<(String, String
     let hl = enc.header_len;
     let body = enc.body().to_vec();
     let leaves: Vec<&Leaf> = enc.trace.iter().filter(|l| l.region == 0 && l.width > 0).collect();
+    // which (string-long kind, site) pairs exist already: their frames (a copy of the body each) are not built again
+    let mut long_built: BTreeSet<String> = done.iter().filter(|(k, _)| k.starts_with("string-long-") && !k.contains(':')).map(|(k, s)| format!("{}|{}", k, s)).collect();
     let mut push = |kind: String, site: String, frame: Option<Vec<u8>>, deep: bool, out: &mut Vec<Corruption>| {
         if let Some(frame) = frame {
             if done.insert((kind.clone(), site.clone())) {
@@ -106,6 +108,10 @@ pub fn corruptions(e: &Entry, enc: &Encoded, done: &mut BTreeSet<(String, String
                 let after = l.offset + l.width + 1;
                 for n in [255usize, 256, 257, 300] {
                     for nul in [false, true] {
+                        // (the frames are only built for a site that has not had them yet)
+                        if !long_built.insert(format!("string-long-{}{}|{}", n, if nul { "-nul" } else { "" }, site)) {
+                            continue;
+                        }
                         let mut b: Vec<u8> = body[..l.offset].to_vec();
                         b.extend(std::iter::repeat(b'A').take(n));
                         if nul {
